@@ -368,21 +368,26 @@ HostileAppend ==
 
 \* ------------------------------------------------------------------ teardown
 WillOf(c) == conn[c].will
+\* a newer session of the same client identifier (same tenant) is being set up or already registered: the broker may end
+\* the older one at once, before or after it registers the new one
+Superseded(c) == \/ conn[c].displaced
+                 \/ \E x \in Dom(conn) : x # c /\ conn[x].phase = "setup" /\ conn[x].auth = "ok"
+                                          /\ conn[x].client = conn[c].client /\ conn[x].mount = conn[c].mount
 Unregister ==
   /\ Ev.op = "reg.delete" /\ KnownS(Ev.s)
   /\ LET c == SC(Ev.s) k == conn[c] IN
      /\ k.reg /\ k.n = Ev.n
-     /\ k.cause # "none"                                                     \* C11: sessions end only for cause
+     /\ (k.cause # "none" \/ Superseded(c))                                 \* C11: sessions end only for cause (displacement is one: the broker may end a displaced session at once)
      /\ conn' = Upd(conn, c, [k EXCEPT !.reg = FALSE, !.phase = "ending"])
      /\ subs' = {x \in subs : x.c # c}
      /\ UNCHANGED outf /\ owed' = Del(owed, {c})
      \* C13: the will is released exactly when the session dies without DISCONNECT.  Displacement by a newer
      \* session is not in C13's list of causes: publishing the will then is allowed, not required.
-     /\ IF k.will # "" /\ ~k.disc
+     /\ IF k.will # "" /\ ~k.disc /\ k.cause # "none"
         THEN /\ msgs' = Upd(msgs, k.will, [msgs[k.will] EXCEPT !.released = TRUE])
              /\ need' = Upd(need, k.will, NeedFor(msgs[k.will], {c})) /\ UNCHANGED reach
              /\ ret' = RetainedAfter(msgs[k.will], k.will)
-        ELSE IF k.will # "" /\ k.cause = "displaced"
+        ELSE IF k.will # "" /\ (k.cause = "displaced" \/ (k.cause = "none" /\ Superseded(c)))
         THEN /\ msgs' = Upd(msgs, k.will, [msgs[k.will] EXCEPT !.released = TRUE]) /\ UNCHANGED <<need, ret, reach>>
         ELSE UNCHANGED <<msgs, need, ret, reach>>
   /\ UNCHANGED <<vnow, logs, acked, inq2, deliv, tags, sweeps, dead, table, clears, faults>>
@@ -392,6 +397,12 @@ TeardownDone ==
      /\ ~conn[c].reg /\ conn[c].phase = "ending"
      /\ conn' = Upd(conn, c, [conn[c] EXCEPT !.phase = "ended"])
   /\ UNCHANGED <<vnow, subs, msgs, logs, acked, inq2, outf, deliv, need, owed, ret, tags, sweeps, dead, table, clears, faults, reach>>
+\* teardown steps repeated for a session that is already gone change nothing (the properties do not forbid them;
+\* what a repeated teardown must not do - publish the will again, touch a successor - is rejected where it shows)
+Again ==
+  /\ \/ Ev.op = "reg.delete" /\ ~Ev.found /\ KnownS(Ev.s) /\ ~conn[SC(Ev.s)].reg /\ conn[SC(Ev.s)].phase \in {"ending", "ended"}
+     \/ Ev.op = "shutdown.done" /\ KnownS(Ev.s) /\ conn[SC(Ev.s)].phase = "ended"
+  /\ UNCHANGED <<vnow, conn, subs, msgs, logs, acked, inq2, outf, deliv, need, owed, ret, tags, sweeps, dead, table, clears, faults, reach>>
 Close ==
   /\ Ev.op = "srv.close" /\ Ev.c \in Dom(conn)
   /\ conn[Ev.c].phase \in {"open", "setup", "refused", "ending", "ended"}    \* never a live session's connection
@@ -435,6 +446,12 @@ Probe ==
   /\ ToSet(Ev.local) = {conn[c].s : c \in {x \in Dom(conn) : conn[x].reg /\ conn[x].n = Ev.n}}
   \* C06 (writer level): identifiers held = identifiers of live outbound flows, nothing leaks
   /\ ToSet(Ev.held) = NodeIds(Ev.n)
+  \* C12: once the broadcasts are delivered every node resolves a client identifier to its newest session - also while a
+  \* displaced session has not noticed yet
+  /\ Ev.synced =>
+       \A r \in ToSet(Ev.resolve) : \A c \in Dom(conn) :
+          (conn[c].phase = "live" /\ ~conn[c].displaced /\ ~conn[c].hostile /\ conn[c].n \notin dead
+             /\ conn[c].client = r.client /\ conn[c].mount = r.mount) => r.s = conn[c].s
   /\ (Ev.synced /\ NobodyInLimbo) =>
        \* C11/C12: every node lists exactly the live sessions, with their tenant and hosting node ...
        /\ {[s |-> x.s, client |-> x.client, peer |-> x.peer, mount |-> x.mount] : x \in ToSet(Ev.sessions)}
@@ -492,7 +509,7 @@ Step ==
      \/ LogAppend \/ AckInbound \/ PubRecInbound \/ InsertSeam \/ Callback \/ SweepCall \/ SweepRet
      \/ DeliverPublish \/ DeliverEmpty \/ DeliverPubRel \/ HostileWrite \/ HostileAppend
      \/ (OtherWrite /\ UNCHANGED <<conn, vnow, subs, msgs, logs, acked, inq2, outf, deliv, need, owed, ret, tags, sweeps, dead, table, clears, faults, reach>>)
-     \/ Unregister \/ TeardownDone \/ Close \/ PeerFail \/ Inject
+     \/ Unregister \/ TeardownDone \/ Again \/ Close \/ PeerFail \/ Inject
      \/ (Probe /\ UNCHANGED <<conn, vnow, subs, msgs, logs, acked, inq2, outf, deliv, need, owed, ret, tags, sweeps, dead, table, clears, faults, reach>>)
      \/ (Quiescent /\ UNCHANGED <<conn, vnow, subs, msgs, logs, acked, inq2, outf, deliv, need, owed, ret, tags, sweeps, dead, table, clears, faults, reach>>)
      \/ (Ignored /\ UNCHANGED <<conn, vnow, subs, msgs, logs, acked, inq2, outf, deliv, need, owed, ret, tags, sweeps, dead, table, clears, faults, reach>>)
